@@ -202,6 +202,9 @@ def run(rep, facts, tier):
             continue
         loc = G.base_summaries_M(cfg, rep) if name == "M" else {}
         G.check_select(rep, cfg)
+        nid = G.check_identity_forms(rep, cfg, "C04")
+        if name == "A":
+            rep.floor("identity_forms_A", nid, 5)
         ops = G.enumerate_ops(cfg, TRAITS)
         counts[name] = len(ops)
         for path, b, tr, sorts in ops:
